@@ -47,3 +47,42 @@ Example C03_nonvacuous :
   | Err _ => false
   end = true.
 Proof. vm_compute. reflexivity. Qed.
+
+(* Part 3: on the HARDWARE model (Hw.v: floo_route_select's SourceRouting decision -- the low
+   clog2(NumRoutes) bits select the port, the word is shifted --, NoLoopback, signals followed from driver
+   to reader, the word held in the emitted route_t field), for every description and on both networks: the
+   word the generator emits for the pair (s0, t), injected at s0, is delivered to exactly t, leaves only zero
+   bits, and traverses exactly the routers of a shortest path.  Hypotheses (decidable, evaluated in the
+   example): the wiring checker passes on the emitted netlist (C05, second half), and s0 injects into the
+   router the path starts at. *)
+From FV Require Import Build BuildProofs RefOracle HwProofs.
+Theorem C03_hw_delivered :
+  forall (d : desc) (g : graph) (c : compiled) (ri : rinfo) (n : netlist) (t : cni) (nt : net),
+    nt = Req \/ nt = Rsp ->
+    build d = Ok g -> compile d g = Ok c -> gen_routing_info sp_reference c = Ok ri -> emit c ri = Ok n ->
+    d_algo d = SRC -> In t (c_nis c) -> chk_C05 n = [] ->
+    forall s0 id ps p, In s0 (c_nis c) -> gen_route sp_reference c s0 t = Ok (id, Some ps) ->
+      sp_reference g (cn_name s0) (cn_name t) = Some p -> snd (attach nt s0) = hd "" (tl p) ->
+      let tr := send n nt (emit_ni d (ri_offset ri) s0) (hdr_of_word n (word_value ps)) in
+      t_out tr = Delivered (cn_name t) (HRoute 0) /\ length (t_rts tr) = length ps /\ (2 + length ps = length p)%nat.
+Proof. exact hw_src_send_ref. Qed.
+Print Assumptions C03_hw_delivered.
+
+Example C03_hw_nonvacuous :
+  match (do g <- build (ex_tree SRC); do c <- compile (ex_tree SRC) g; do ri <- gen_routing_info sp_reference c;
+         do n <- emit c ri; Ok (c, (ri, n))) with
+  | Ok (c, (ri, n)) =>
+      match chk_C05 n with [] => true | _ => false end &&
+      forallb (fun nt => forallb (fun s0 => forallb (fun t =>
+          match gen_route sp_reference c s0 t with
+          | Ok (_, Some ps) =>
+              match t_out (send n nt (emit_ni (ex_tree SRC) (ri_offset ri) s0) (hdr_of_word n (word_value ps))) with
+              | Delivered u (HRoute 0) => str_eqb u (cn_name t)
+              | _ => false
+              end
+          | Ok (_, None) => true
+          | Err _ => false
+          end) (c_nis c)) (c_nis c)) [Req; Rsp]
+  | Err _ => false
+  end = true.
+Proof. vm_compute. reflexivity. Qed.
